@@ -47,8 +47,11 @@ def T():
         }
         # an extension no registry knows until the last resolution step (C11 workloads only)
         ns.UT = tys.Opaque("ut", tys.TypeBound.Copyable, [tys.TypeTypeArg(Array(int_t(5), 2))], "verif.u")
+        ns.UINT = tys.Opaque("int", tys.TypeBound.Copyable, [tys.BoundedNatArg(5)], "verif.u")  # same id as arithmetic.int.types.int
         ns.UOP = lambda: ops.Custom("uop", F([ns.B], [ns.UT], ["verif.u"]), "about uop", "verif.u",
-                                    [tys.TypeTypeArg(ns.UT), tys.SequenceArg([tys.TypeTypeArg(int_t(3)), tys.BoundedNatArg(4)])])
+                                    [tys.TypeTypeArg(ns.UT), tys.SequenceArg([tys.TypeTypeArg(int_t(3)), tys.BoundedNatArg(4)]),
+                                     tys.SequenceArg([tys.SequenceArg([tys.TypeTypeArg(FLOAT_T)]), tys.SequenceArg([tys.BoundedNatArg(7), tys.TypeTypeArg(int_t(5))])]),
+                                     tys.TypeTypeArg(List(int_t(5))), tys.TypeTypeArg(List(ns.UINT))])
         _T = ns
     return _T
 
